@@ -28,6 +28,7 @@ func runC01Types(c *Ctx, w *ATWorld) {
 		{"timestamp", memdb.Column{Type: memdb.TTimestamp, Nullable: true}, time.Date(2024, 1, 2, 3, 4, 5, 0, time.UTC), "'2025-06-07 08:09:10'"},
 		{"date", memdb.Column{Type: memdb.TDate, Nullable: true}, time.Date(2024, 1, 2, 0, 0, 0, 0, time.UTC), "'2025-06-07'"},
 		{"decimal", memdb.Column{Type: memdb.TDecimal, Length: 10, Scale: 2, Nullable: true}, "12.34", "56.78"},
+		{"decimal-18-digits", memdb.Column{Type: memdb.TDecimal, Length: 20, Scale: 2, Nullable: true}, "1234567890123456.78", "9876543210987654.32"},
 		{"double", memdb.Column{Type: memdb.TDouble, Nullable: true}, 1.5, "2.25"},
 		{"float", memdb.Column{Type: memdb.TFloat, Nullable: true}, float32(1.5), "2.25"},
 		{"tinyint", memdb.Column{Type: memdb.TTinyInt, Nullable: true}, int64(1), "0"},
